@@ -8,9 +8,10 @@ CONSTANTS
   Devs = {}
   LevelSet = {"3"}
   Focus = "session"
-  MaxOps = 9
+  MaxOps = 10
   MaxProbes = 2
   SetLevels = {}
+  BadActivations = "full"
 INIT GInit
 NEXT GNext
 INVARIANT InvSessionRequired
